@@ -211,3 +211,28 @@ def gen_c10(seed, ptr):
                c10=dict(stuck=stuck, hard_error=hard_error, n=n,
                         all_items=sorted("::".join(mods[owner[i]] + [names[i]]) for i in range(n))))
     return files, exp
+
+
+def gen_c15_shadow(seed, ptr):
+    """extern values whose type name is defined both in the declaring module and in a module it imports (by module):
+    the declaring module's own definition is the one the rules select -- in by-value, pointer and array positions.
+    Returns (files, exp) in the shape gen.generate uses (no types with singletons; externs carry `want_path`)."""
+    rng = random.Random(seed)
+    name = rng.choice(["Channel", "Config", "Slot"])
+    first, second = rng.choice([("audio", "video"), ("zlib", "app"), ("core", "game")])
+    k1, k2 = 4 * rng.randint(1, 8), 4 * rng.randint(9, 16)
+    files = {first + ".pyxis": "pub type %s { pub a: [u8; %d] }\n" % (name, k1)}
+    owner = second
+    text = "use %s;\npub type %s { pub b: [u8; %d] }\n" % (first, name, k2)
+    exp = dict(types={}, enums={}, vftables={}, funcs={}, externs={}, miss=None)
+    forms = [("g_val", "%s"), ("g_ptr", "*mut %s"), ("g_arr", "[%s; 4]"), ("g_pp", "*const *mut %s")]
+    rng.shuffle(forms)
+    for i, (g, form) in enumerate(forms[:rng.randint(2, 4)]):
+        addr = 0x10000 + 0x100 * i + 16 * rng.randint(0, 9)
+        pub = rng.random() < 0.7
+        text += "#[address(0x%x)]\n%sextern %s: %s;\n" % (addr, "pub " if pub else "", g, form % name)
+        exp["externs"]["%s::%s" % (owner, g)] = dict(addr=addr, type=form % name, pub=pub,
+                                                    want_path="crate::%s::%s" % (owner, name), not_path="crate::%s::%s" % (first, name))
+    files[owner + ".pyxis"] = text
+    exp["modules"] = {first: dict(doc=[], pro=None, epi=None), owner: dict(doc=[], pro=None, epi=None)}
+    return files, exp
